@@ -46,8 +46,12 @@ func isSigned(s *Sym) bool {
 		_, sg := intInfo(s.T)
 		return sg
 	}
-	return specSigned[s]
+	// spec-level bit-vectors (ghost components, spec function results) are signed unless marked:
+	// heights, lengths and counters are Go ints; uint32 fields (bits, nonce) are only compared for equality
+	return !specUnsigned[s]
 }
+
+var specUnsigned = map[*Sym]bool{}
 
 func (e *Env) sortOfTypeName(n string) (types.Type, string) {
 	if t, ok := basicByName[n]; ok {
@@ -197,8 +201,8 @@ func (e *Env) lit(v *big.Int, hint *Sym) *Sym {
 		h := hint.L[0]
 		if h.isBV() {
 			out := scalar(hint.T, mkBV(v, h.W))
-			if hint.T == nil && specSigned[hint] {
-				specSigned[out] = true
+			if hint.T == nil && specUnsigned[hint] {
+				specUnsigned[out] = true
 			}
 			return out
 		}
@@ -356,8 +360,8 @@ func (e *Env) binary(n *Node, hint *Sym) *Sym {
 	}
 	mk := func(t *Term) *Sym {
 		out := &Sym{T: resT, L: []*Term{t}}
-		if resT == nil && sg {
-			specSigned[out] = true
+		if resT == nil && !sg {
+			specUnsigned[out] = true
 		}
 		return out
 	}
@@ -748,7 +752,9 @@ func (e *Env) call(n *Node, hint *Sym) *Sym {
 		return out
 	case "unsigned":
 		x := e.eval(n.Args[0], hint)
-		return &Sym{L: x.L}
+		out := &Sym{L: x.L}
+		specUnsigned[out] = true
+		return out
 	case "bv2int": // interpreted bridge (use sparingly)
 		x := e.eval(n.Args[0], nil)
 		return &Sym{L: []*Term{app(SInt, "bv2nat", x.term())}}
